@@ -40,6 +40,161 @@ impl Out {
     }
 }
 
+/// a list value, now and then broken over two lines after a comma
+fn list_value(r: &mut Rng, items: &[String]) -> String {
+    let mut out = String::from("(");
+    for (i, it) in items.iter().enumerate() {
+        if i > 0 {
+            out.push(',');
+            if r.chance(1, 6) {
+                out.push_str("\n         ");
+            } else if r.chance(2, 3) {
+                out.push(' ');
+            }
+        }
+        out.push_str(it);
+    }
+    if r.chance(1, 3) {
+        out.push(' ');
+    }
+    out.push(')');
+    out
+}
+fn list_num(r: &mut Rng) -> String {
+    finite_num(r).trim_start_matches('+').to_string()
+}
+
+/// more of the construction database (layers with air gaps, constructions over them, gaps), thermal bridges of the
+/// three kinds of definition, and day / week / year schedules
+fn extra_blocks(r: &mut Rng, o: &mut Out) {
+    const MATS: &[&str] = &[
+        "Mat1", "Cámara de aire sin ventilar vertical 2 cm", "Cámara de aire ligeramente ventilada horizontal 10 cm", "Cámara de aire ñ1 cm",
+        "Cámara de aire 7 cm", "Cámara de aire sin ventilar horizontal 1 cm", "Cámara de aire 5 cm", "Camara de aire 2 cm", "MW Lana mineral [0.04 W/[mK]]",
+    ];
+    let nl = r.below(3);
+    for li in 0..nl {
+        let n = 1 + r.below(4);
+        let mats: Vec<String> = (0..n).map(|_| format!("\"{}\"", r.pick(MATS))).collect();
+        let ths: Vec<String> = (0..n).map(|_| list_num(r)).collect();
+        let mut a = vec![("MATERIAL".to_string(), list_value(r, &mats)), ("THICKNESS".to_string(), list_value(r, &ths))];
+        if r.chance(1, 2) {
+            a.push(("GROUP".into(), "\"Fachadas\"".into()));
+        }
+        o.block(r, &format!("Capas{}", li + 2), "LAYERS", &mut a);
+        // a construction over these layers: under its own name, or under the layers' name
+        if r.chance(2, 3) {
+            let cname = if r.chance(1, 4) { format!("Capas{}", li + 2) } else { format!("Cons{}", li + 2) };
+            let mut a = vec![("TYPE".to_string(), "LAYERS".to_string()), ("LAYERS".to_string(), format!("\"Capas{}\"", li + 2))];
+            if r.chance(1, 2) {
+                a.push(("ABSORPTANCE".into(), finite_num(r)));
+            }
+            o.block(r, &cname, "CONSTRUCTION", &mut a);
+        }
+    }
+    if r.chance(1, 5) {
+        // a construction left with the default composition
+        let mut a = vec![("TYPE".to_string(), "LAYERS".to_string()), ("LAYERS".to_string(), "\"Ninguno\"".to_string())];
+        o.block(r, "ConsNinguno", "CONSTRUCTION", &mut a);
+    }
+    for gi in 0..r.below(3) {
+        let mut a: Vec<(String, String)> = vec![
+            ("GLASS-TYPE".into(), "\"Vidrio 1\"".into()),
+            ("GROUP-GLASS".into(), "\"Vidrios\"".into()),
+            ("NAME-FRAME".into(), "\"Marco 1\"".into()),
+            ("GROUP-FRAME".into(), "\"Marcos\"".into()),
+            ("PORCENTAGE".into(), finite_num(r)),
+            ("INF-COEF".into(), finite_num(r)),
+        ];
+        if r.chance(1, 2) {
+            a.push(("GROUP".into(), "\"Huecos proyecto\"".into()));
+        }
+        if r.chance(1, 2) {
+            a.push(("porcentajeIncrementoU".into(), finite_num(r)));
+        }
+        if r.chance(1, 2) {
+            a.push(("TransmisividadJulio".into(), finite_num(r)));
+        }
+        // a second definition under the same name replaces the first
+        let name = if gi == 2 && r.chance(1, 2) { "Hueco1".to_string() } else { format!("Hueco{}", gi + 1) };
+        o.block(r, &name, "GAP", &mut a);
+    }
+    for ti in 0..r.below(4) {
+        let kind = r.below(5);
+        let name = if kind == 0 { "LONGITUDES_CALCULADAS".to_string() } else { format!("PT{}", ti) };
+        let mut a: Vec<(String, String)> = vec![];
+        if r.chance(3, 4) {
+            a.push(("LONG-TOTAL".into(), finite_num(r)));
+        }
+        if kind != 0 || r.chance(1, 3) {
+            a.push(("TTL".into(), finite_num(r)));
+            a.push(("FRSI".into(), finite_num(r)));
+        }
+        let ty = *r.pick(&["SLAB", "MASONRY", "UNDER-EXT", "PILLAR", "WINDOW-FRAME", ""]);
+        if !ty.is_empty() {
+            a.push(("TYPE".into(), ty.into()));
+        }
+        if !matches!(ty, "PILLAR" | "WINDOW-FRAME" | "") || r.chance(1, 4) {
+            a.push(("ANGLE-MIN".into(), finite_num(r)));
+            a.push(("ANGLE-MAX".into(), finite_num(r)));
+            a.push(("PARTITION".into(), (*r.pick(&["YES", "BOTH"])).into()));
+        }
+        match kind {
+            0 | 1 => a.push(("DEFINICION".into(), "1".into())),
+            2 => a.push(("DEFINICION".into(), (*r.pick(&["2", "2.0", "2.7"])).into())),
+            3 => {
+                a.push(("DEFINICION".into(), (*r.pick(&["3", "3.0", "+3"])).into()));
+                let n = 1 + r.below(3);
+                let cls: Vec<String> = (0..n).map(|i| format!("\"Clase {} - forjado\"", i)).collect();
+                a.push(("LISTA-N".into(), list_value(r, &cls)));
+                if r.chance(3, 4) {
+                    let v: Vec<String> = (0..n).map(|_| list_num(r)).collect();
+                    a.push(("LISTA-L".into(), list_value(r, &v)));
+                }
+                if r.chance(3, 4) {
+                    let v: Vec<String> = (0..n).map(|_| list_num(r)).collect();
+                    a.push(("LISTA-MURO".into(), list_value(r, &v)));
+                }
+                if r.chance(1, 2) {
+                    let v: Vec<String> = (0..n).map(|_| list_num(r)).collect();
+                    a.push(("LISTA-MARCO".into(), list_value(r, &v)));
+                }
+            }
+            _ => {} // old LIDER: no DEFINICION
+        }
+        o.block(r, &name, "THERMAL-BRIDGE", &mut a);
+    }
+    let kinds = ["FRACTION", "ON/OFF", "TEMPERATURE"];
+    for si in 0..r.below(4) {
+        match r.below(3) {
+            0 => {
+                let n = if r.chance(1, 4) { 1 } else { 24 };
+                let v: Vec<String> = (0..n).map(|_| list_num(r)).collect();
+                let mut a = vec![("TYPE".to_string(), r.pick(&kinds).to_string()), ("VALUES".to_string(), list_value(r, &v))];
+                o.block(r, &format!("Dia  {}", si), "DAY-SCHEDULE-PD", &mut a);
+            }
+            1 => {
+                let n = if r.chance(1, 4) { 1 } else { 7 };
+                let v: Vec<String> = (0..n).map(|i| format!("\"Dia {}\"", i % 3)).collect();
+                let mut a = vec![("TYPE".to_string(), r.pick(&kinds).to_string()), ("DAY-SCHEDULES".to_string(), list_value(r, &v))];
+                o.block(r, &format!("Semana {}", si), "WEEK-SCHEDULE-PD", &mut a);
+            }
+            _ => {
+                let n = 1 + r.below(4);
+                let months: Vec<String> = (0..n).map(|i| if i + 1 == n { "12".to_string() } else { format!("{}", 1 + r.below(11)) }).collect();
+                let days: Vec<String> = (0..n).map(|_| (*r.pick(&["31", "30", "28", "15", "01"])).to_string()).collect();
+                let weeks: Vec<String> = (0..n).map(|i| format!("\"Semana {}\"", i)).collect();
+                let mut a = vec![
+                    ("TYPE".to_string(), r.pick(&kinds).to_string()),
+                    ("MONTH".to_string(), list_value(r, &months)),
+                    ("DAY".to_string(), list_value(r, &days)),
+                    ("WEEK-SCHEDULES".to_string(), list_value(r, &weeks)),
+                ];
+                o.block(r, &format!("Anual {}", si), "SCHEDULE-PD", &mut a);
+            }
+        }
+    }
+}
+
 pub fn buildings(r: &mut Rng, n: usize, findings: &mut Vec<Value>, texts: &mut Vec<String>) -> Value {
     let mut fields = 0usize;
     let mut parsed = 0usize;
@@ -162,6 +317,16 @@ pub fn buildings(r: &mut Rng, n: usize, findings: &mut Vec<Value>, texts: &mut V
             if w.next {
                 a.push(("NEXT-TO".into(), "\"P01_E01\"".into()));
             }
+            // some walls carry an outline of their own (one POLYGON block each: Data::new hands it over, it does not copy it)
+            if r.chance(1, 4) {
+                let nvw = 3 + r.below(4);
+                o.text.push_str(&format!("\"{}_Pol\" = POLYGON\n", w.name));
+                for i in 0..nvw {
+                    o.text.push_str(&format!("   V{} = ( {}, {} )\n", i + 1, finite_num(r).trim_start_matches('+'), finite_num(r).trim_start_matches('+')));
+                }
+                o.text.push_str("   ..\n");
+                a.push(("POLYGON".into(), format!("\"{}_Pol\"", w.name)));
+            }
             o.block(r, &w.name, w.ty, &mut a);
             // one window under every second wall
             if w.name.ends_with('0') || w.name.ends_with('2') {
@@ -172,6 +337,7 @@ pub fn buildings(r: &mut Rng, n: usize, findings: &mut Vec<Value>, texts: &mut V
                 o.block(r, &format!("{}_V", w.name), "WINDOW", &mut a);
             }
         }
+        extra_blocks(r, &mut o);
         let text = o.text.clone();
         texts.push(text.clone());
         let t2 = text.clone();
@@ -276,6 +442,9 @@ pub fn buildings(r: &mut Rng, n: usize, findings: &mut Vec<Value>, texts: &mut V
     json!({"buildings": n, "buildings_parsed": parsed, "building_fields_compared": fields})
 }
 
+fn pts(v: &[nalgebra::Point2<f32>]) -> String {
+    format!("[{}]", v.iter().map(|p| format!("[{}; {}]", num(p.x), num(p.y))).collect::<Vec<_>>().join("; "))
+}
 fn num(x: f32) -> String {
     if x.is_nan() {
         "INan".into()
@@ -301,10 +470,10 @@ pub fn building_case(text: &str) -> (String, usize) {
                 .iter()
                 .map(|s| {
                     format!(
-                        "mkISp {} {} {} [{}] {} {} {} {} {} {}%nat",
+                        "mkISp {} {} {} [{}] {} {} {} {} {} {}",
                         cstr(&s.name), cstr(&s.floor), cstr(&s.stype),
                         [s.x, s.y, s.z, s.angle_with_building_north, s.height, s.floor_multiplier, s.power, s.veei_obj, s.veei_ref, s.multiplier].iter().map(|x| num(*x)).collect::<Vec<_>>().join("; "),
-                        crate::coq::b(s.insidete), cstr(&s.spacetype), cstr(&s.spaceconds), cstr(&s.systemconds), crate::coq::b(s.ismultiplied), s.polygon.as_vec().len()
+                        crate::coq::b(s.insidete), cstr(&s.spacetype), cstr(&s.spaceconds), cstr(&s.systemconds), crate::coq::b(s.ismultiplied), pts(&s.polygon.as_vec())
                     )
                 })
                 .collect();
@@ -321,13 +490,78 @@ pub fn building_case(text: &str) -> (String, usize) {
                         _ => 3,
                     };
                     format!(
-                        "mkIWl {} {} {} {} {}%N [{}; {}; {}; {}] {} {} {}",
+                        "mkIWl {} {} {} {} {}%N [{}; {}; {}; {}] {} {} {} {}",
                         cstr(&w.name), cstr(&w.space), cstr(&w.cons), ostr(&w.location), bounds, num(w.tilt), num(w.x), num(w.y), num(w.z),
-                        crate::coq::b(w.polygon.is_some()), az, ostr(&w.nextto)
+                        crate::coq::b(w.polygon.is_some()), az, ostr(&w.nextto),
+                        match &w.polygon { Some(p) => format!("(Some {})", pts(&p.as_vec())), None => "None".to_string() }
                     )
                 })
                 .collect();
-            (format!("BOk [{}] [{}]", sps.join("; "), wls.join("; ")), 0)
+            let nums = |v: &[f32]| format!("[{}]", v.iter().map(|x| num(*x)).collect::<Vec<_>>().join("; "));
+            let strs = |v: &[String]| format!("[{}]", v.iter().map(|x| cstr(x)).collect::<Vec<_>>().join("; "));
+            let onum = |o: &Option<f32>| match o {
+                Some(x) => format!("(Some {})", num(*x)),
+                None => "None".to_string(),
+            };
+            let wcs: Vec<String> = d
+                .db
+                .wallcons
+                .values()
+                .map(|w| format!("mkIWC {} {} {} {} {}", cstr(&w.name), cstr(&w.group), strs(&w.material), nums(&w.thickness), num(w.absorptance)))
+                .collect();
+            let gcs: Vec<String> = d
+                .db
+                .wincons
+                .values()
+                .map(|g| {
+                    format!(
+                        "mkIWC2 {} {} {} {} {} {} {} {} {} {}",
+                        cstr(&g.name), cstr(&g.group), cstr(&g.glass), cstr(&g.glassgroup), cstr(&g.frame), cstr(&g.framegroup),
+                        num(g.framefrac), num(g.infcoeff), num(g.deltau), onum(&g.gglshwi)
+                    )
+                })
+                .collect();
+            let tbs: Vec<String> = d
+                .thermal_bridges
+                .iter()
+                .map(|t| {
+                    let geo = match &t.geometry {
+                        Some(g) => format!("(Some ({}, {}, {}))", num(g.anglemin), num(g.anglemax), cstr(&g.partition)),
+                        None => "None".to_string(),
+                    };
+                    let cat = match &t.catalog {
+                        Some(c) => format!(
+                            "(Some ({}, {}, {}, {}))",
+                            strs(&c.classes), nums(&c.pcts), nums(&c.firstelems),
+                            match &c.secondelems { Some(v) => format!("(Some {})", nums(v)), None => "None".to_string() }
+                        ),
+                        None => "None".to_string(),
+                    };
+                    format!("mkIBr {} {} {} {} {} {} {}", cstr(&t.name), onum(&t.length), cstr(&t.tbtype), num(t.psi), num(t.frsi), geo, cat)
+                })
+                .collect();
+            let kind = |k: &dyn std::fmt::Debug| match format!("{:?}", k).as_str() {
+                "Fraction" => 0,
+                "OnOff" => 1,
+                _ => 2,
+            };
+            let ns = |v: &[u32]| format!("[{}]", v.iter().map(|x| format!("{}%N", x)).collect::<Vec<_>>().join("; "));
+            let scs: Vec<String> = d
+                .schedules
+                .iter()
+                .map(|s| match s {
+                    hulc::bdl::Schedule::Day(x) => format!("IDay {} {}%N {}", cstr(&x.name), kind(&x.kind), nums(&x.values)),
+                    hulc::bdl::Schedule::Week(x) => format!("IWeek {} {}%N {}", cstr(&x.name), kind(&x.kind), strs(&x.days)),
+                    hulc::bdl::Schedule::Year(x) => format!("IYear {} {}%N {} {} {}", cstr(&x.name), kind(&x.kind), ns(&x.days), ns(&x.months), strs(&x.weeks)),
+                })
+                .collect();
+            (
+                format!(
+                    "BOk [{}] [{}]\n (mkIDb [{}] [{}] [{}] [{}])",
+                    sps.join("; "), wls.join("; "), wcs.join("; "), gcs.join("; "), tbs.join("; "), scs.join("; ")
+                ),
+                0,
+            )
         }
         Ok(Err(_)) => ("BErr".to_string(), 1),
         Err(_) => ("BPanic".to_string(), 2),
